@@ -8,6 +8,12 @@
 //   addh i h | pop i | clear i | del i | await i me | yield me | size i | empty i | val i | end
 //   conv i | cconv i | ares i     read the value of a typed suspend point: X(sp) on a non-const lvalue (operator X()),
 //                   X(sp) on a const lvalue (operator const X() const), sp.await_resume(); `val i` does all three in a row
+//   delx i          the object in slot i is destroyed *during stack unwinding* (by the destructor of a guard of a scope
+//                   that is left by a thrown exception); must behave exactly like `del i`
+//   clearx i        the content of slot i is moved into a local suspend point of a scope that is left by a thrown exception
+//                   (discarded during unwinding); must behave exactly like `clear i`
+//   csp i h...      slot i = coro_queue::create_suspend_point([&]{ coro_queue::resume(h)... })            (suspend_point<void>)
+//   cspv i v h...   slot i = coro_queue::create_suspend_point([&]{ coro_queue::resume(h)...; return v; }) (suspend_point<Val>)
 //   addme i me      sp_i << (handle of the coroutine that will later `await` with id me): in mode c me is the driver
 //                   coroutine (99) itself, in mode n a persistent awaiting coroutine `me` (>= number of counters)
 //   ctorself i me   mode c only: slot i = co_await cocls::self()   (the library's idiom to obtain the own handle)
@@ -112,6 +118,8 @@ struct Val {
 
 using SPV = cocls::suspend_point<void>;
 using SPI = cocls::suspend_point<Val>;
+
+struct unwinding {};   // thrown to leave a scope: everything destroyed on the way is destroyed during stack unwinding
 
 struct Slot {
     int kind = 0;   // 0 = no object, 1 = suspend_point<void>, 2 = suspend_point<int>
@@ -301,6 +309,46 @@ static Act exec(Ctx &c, const std::vector<std::string> &w, std::string &head, in
     } else if (op == "del") {
         if (!c.live(i)) return Act::bad;
         c.slots[i].destroy();
+    } else if (op == "delx") {
+        if (!c.live(i)) return Act::bad;
+        struct Guard {
+            Slot *s;
+            ~Guard() { s->destroy(); }      // runs while the exception below propagates: std::uncaught_exceptions() == 1
+        };
+        try {
+            Guard g{&c.slots[i]};
+            throw unwinding{};
+        } catch (const unwinding &) {
+        }
+    } else if (op == "clearx") {
+        if (!c.live(i)) return Act::bad;
+        try {
+            SPV local(std::move(c.slots[i].base()));   // a local of a scope that is left by an exception
+            throw unwinding{};
+        } catch (const unwinding &) {
+        }
+    } else if (op == "csp" || op == "cspv") {
+        std::size_t first = op == "csp" ? 2 : 3;
+        if (!c.vacant(i) || w.size() < first) return Act::bad;
+        std::vector<std::coroutine_handle<>> hs;
+        for (std::size_t k = first; k < w.size(); ++k) {
+            auto h = c.handle(atoi(w[k].c_str()));
+            if (!h) return Act::bad;
+            hs.push_back(h);
+        }
+        if (op == "csp") {
+            new (c.slots[i].buf) SPV(cocls::coro_queue::create_suspend_point([&] {
+                for (auto h : hs) cocls::coro_queue::resume(h);
+            }));
+            c.slots[i].kind = 1;
+        } else {
+            long v = num(2);
+            new (c.slots[i].buf) SPI(cocls::coro_queue::create_suspend_point([&] {
+                for (auto h : hs) cocls::coro_queue::resume(h);
+                return Val(v);
+            }));
+            c.slots[i].kind = 2;
+        }
     } else if (op == "size") {
         if (!c.live(i)) return Act::bad;
         head = "size " + std::to_string(c.slots[i].base().size());
